@@ -35,6 +35,7 @@ package bkl
 //@   ensures (= res (ite ((_ is VStr) a) (sv a) ""))
 //
 //@ func popListString(l, v) (found, res)
+//@   effects closure-write:found   -- the per-entry callback also records in found (the loop invariants of this contract speak about it)
 //@   uses appNil, snocApp
 //@   ensures (= found (memStr (ls l) v))
 //@   ensures (= res (VList (removeStr (ls l) v)))
@@ -143,6 +144,7 @@ package bkl
 //@     invariant (= (foldErr (ls dst) rest) (foldErr (ls dst@loop) (ls src)))
 //
 //@ func mergeListDelete(obj, del) (res, err)
+//@   effects closure-write:deleted   -- the per-entry callback also records in deleted (the loop invariants of this contract speak about it)
 //@   propagates all   [C08]
 //@   consumes obj
 //@   uses appNil, snocApp
@@ -155,6 +157,7 @@ package bkl
 //@     invariant (= (or deleted (anyMatchL rest del)) (anyMatchL (ls l) del))
 //
 //@ func mergeListMatch(obj, m, v) (res, err)
+//@   effects closure-write:found   -- the per-entry callback also records in found (the loop invariants of this contract speak about it)
 //@   propagates all   [C08]
 //@   consumes obj, v
 //@   uses appNil, snocApp
@@ -518,6 +521,7 @@ package bkl
 //@     assert (=> ((_ is VStr) v) (strPathOK (heap Document.Data) (Document.Data mergeFrom) mergeFromDocs (sv v) next false))    [C10]
 //@     assert (=> ((_ is VList) v) (listPathOK (heap Document.Data) (Document.Data mergeFrom) mergeFromDocs (ls v) next false))  [C10]
 //@ func process1List(obj, mergeFrom, mergeFromDocs, depth) (res, err)
+//@   effects closure-write:merge   -- the per-entry callback also records in merge (the loop invariants of this contract speak about it)
 //@   property C01, C02, C03, C04, C07, C10, C12, C13, C14, C17 shallow   -- the evaluation spine: every property that says "... is an error" relies on a failure below this function surfacing (propagates)
 //@   propagates all   [C08]
 //@   uses appNil, snocApp, escNoKey, noNullApp
@@ -1027,6 +1031,7 @@ package bkl
 //@     invariant (= (app (ls ret) (prefixL prefix rest)) (prefixL prefix (sitems strs)))
 
 //@ func popListMapValue(l, k) (val, rest, err)
+//@   effects closure-write:ret   -- the per-entry callback also records in ret (the loop invariants of this contract speak about it)
 //@   propagates all   [C08]
 //@   uses appNil, snocApp
 //@   ensures (=> (not (anyKeyL (ls l) k)) (and (not (isErr err)) (= val VNil) (= rest l)))              [C06]
